@@ -837,7 +837,15 @@ func angularDistance(vec1, vec2 []float64) float64 {
 	if magnitude1 == 0 || magnitude2 == 0 {
 		return 1.0 // Return max distance if one vector is zero
 	}
-	return math.Acos(dotProduct/(math.Sqrt(magnitude1)*math.Sqrt(magnitude2))) / math.Pi
+	// Rounding can push the cosine of (nearly) parallel vectors slightly outside
+	// [-1, 1], where Acos returns NaN.
+	cosine := dotProduct / (math.Sqrt(magnitude1) * math.Sqrt(magnitude2))
+	if cosine > 1 {
+		cosine = 1
+	} else if cosine < -1 {
+		cosine = -1
+	}
+	return math.Acos(cosine) / math.Pi
 }
 
 type searchIndex interface {
